@@ -237,3 +237,169 @@ Proof.
   destruct r5 as [|d r6]; [|destruct (is 10 d); discriminate].
   intros _. right. exists (ds ++ w ++ b :: e). split; [rewrite Hs1, Hs2, Hs3, <- !app_assoc; reflexivity|exact Hpre].
 Qed.
+
+(* ---- the start line ends with LF ---- *)
+Definition Pe (q : list N) : Prop := exists q', q = q' ++ [10%N].
+Definition Pt (q : list N) : Prop := True.
+
+Lemma consumed_weaken {A} (P Q : list N -> Prop) l (x : rres A) :
+  (forall q, P q -> Q q) -> consumed P l x -> consumed Q l x.
+Proof. intros H. destruct x; cbn [consumed]; auto. intros [q [-> Hq]]. exists q. auto. Qed.
+
+Lemma consumed_rbind_gen {A B} (P Q R : list N -> Prop) l (x : rres A) (g : A -> nat -> list N -> rres B) :
+  (forall q q', P q -> Q q' -> R (q ++ q')) ->
+  consumed P l x -> (forall a o r, consumed Q r (g a o r)) -> consumed R l (rbind x g).
+Proof.
+  intros HR. destruct x as [a o r| |]; cbn [rbind consumed]; auto.
+  intros [q [-> Hq]] Hg. specialize (Hg a o r). destruct (g a o r) as [b o' r'| |]; cbn [consumed] in *; auto.
+  destruct Hg as [q' [-> Hq']]. exists (q ++ q'). split; [rewrite app_assoc; reflexivity|auto].
+Qed.
+
+Lemma Pt_Pe q q' : Pt q -> Pe q' -> Pe (q ++ q').
+Proof. intros _ [x ->]. exists (q ++ x). rewrite app_assoc. reflexivity. Qed.
+
+Lemma consumed_te {A B} l (x : rres A) (g : A -> nat -> list N -> rres B) :
+  consumed Pc l x -> (forall a o r, consumed Pe r (g a o r)) -> consumed Pe l (rbind x g).
+Proof.
+  intros Hx Hg. eapply consumed_rbind_gen; [exact Pt_Pe| |exact Hg].
+  eapply consumed_weaken; [|exact Hx]. intros; exact I.
+Qed.
+
+Lemma ref_eol_lf e off l : consumed Pe l (ref_eol e off l).
+Proof.
+  unfold ref_eol. destruct l as [|b r]; [exact I|]. destruct (is 13 b) eqn:E13.
+  - apply is_eq in E13. subst b. destruct r as [|b2 r2]; [exact I|]. destruct (is 10 b2) eqn:E10; [|exact I].
+    apply is_eq in E10. subst b2. exists [13%N; 10%N]. split; [reflexivity|]. exists [13%N]. reflexivity.
+  - destruct (is 10 b) eqn:E10; [|exact I]. apply is_eq in E10. subst b. exists [10%N]. split; [reflexivity|]. exists []. reflexivity.
+Qed.
+
+Lemma ref_request_line_lf ms buf : consumed Pe buf (snd (ref_request_line ms buf)).
+Proof.
+  unfold ref_request_line.
+  assert (H : consumed Pe buf
+    (rbind (ref_empty_lines 0 buf) (fun _ o1 l1 =>
+     rbind (ref_method o1 l1) (fun _ o2 l2 =>
+     rbind (rbind (ref_spaces ms o2 l2) (fun _ o l => ref_target o l)) (fun _ o3 l3 =>
+     rbind (rbind (ref_spaces ms o3 l3) (fun _ o l => ref_version o l)) (fun _ o4 l4 =>
+     ref_eol NewLine o4 l4)))))).
+  { apply consumed_te; [apply (ref_empty_lines_clean (length buf)); lia|]. intros.
+    apply consumed_te; [apply ref_method_clean|]. intros.
+    apply consumed_te; [apply consumed_rbind; [apply ref_spaces_clean|intros; apply ref_target_clean]|]. intros.
+    apply consumed_te; [apply consumed_rbind; [apply ref_spaces_clean|intros; apply ref_version_clean]|]. intros.
+    apply ref_eol_lf. }
+  destruct (ref_empty_lines 0 buf) as [u1 o1 l1| |e1]; cbn [rbind snd] in *; auto.
+  destruct (ref_method o1 l1) as [m o2 l2| |e2]; cbn [rbind snd] in *; auto.
+  destruct (rbind (ref_spaces ms o2 l2) _) as [p o3 l3| |e3]; cbn [rbind snd] in *; auto.
+  destruct (rbind (ref_spaces ms o3 l3) (fun _ o l => ref_version o l)) as [v o4 l4| |e4]; cbn [rbind snd] in *; auto.
+Qed.
+
+Lemma ref_reason_lf off l : consumed Pe l (ref_reason off l).
+Proof.
+  unfold ref_reason. pose proof (span_app reason_char l) as Hs.
+  destruct (span reason_char l) as [t r]. cbn [fst snd] in *.
+  pose proof (ref_eol_lf Status (length t + off) r) as He.
+  destruct (ref_eol Status (length t + off) r) as [u o r'| |]; cbn [consumed] in *; auto.
+  destruct He as [q [-> [x ->]]]. exists (t ++ x ++ [10%N]). split; [rewrite Hs, !app_assoc; reflexivity|].
+  exists (t ++ x). rewrite app_assoc. reflexivity.
+Qed.
+
+Lemma ref_after_code_lf ms off l : consumed Pe l (ref_after_code ms off l).
+Proof.
+  unfold ref_after_code. destruct l as [|b r]; [exact I|].
+  destruct (is 32 b) eqn:E32.
+  - eapply consumed_cons; [apply consumed_te; [apply ref_spaces_clean|intros; apply ref_reason_lf]|].
+    intros q [x ->]. exists (b :: x). reflexivity.
+  - destruct (is 13 b || is 10 b); [|exact I].
+    pose proof (ref_eol_lf Status off (b :: r)) as He.
+    destruct (ref_eol Status off (b :: r)); cbn [consumed] in *; auto.
+Qed.
+
+Lemma ref_status_line_lf ms buf : consumed Pe buf (snd (ref_status_line ms buf)).
+Proof.
+  unfold ref_status_line.
+  assert (H : consumed Pe buf
+    (rbind (rbind (ref_empty_lines 0 buf) (fun _ o l => ref_version o l)) (fun _ o1 l1 =>
+     rbind (rbind (rbind (ref_sp Version o1 l1) (fun _ o l => ref_spaces ms o l)) (fun _ o l => ref_code o l)) (fun _ o2 l2 =>
+     ref_after_code ms o2 l2)))).
+  { apply consumed_te; [apply consumed_rbind; [apply (ref_empty_lines_clean (length buf)); lia|intros; apply ref_version_clean]|]. intros.
+    apply consumed_te; [apply consumed_rbind; [apply consumed_rbind; [apply ref_sp_clean|intros; apply ref_spaces_clean]|intros; apply ref_code_clean]|].
+    intros. apply ref_after_code_lf. }
+  destruct (rbind (ref_empty_lines 0 buf) _) as [v o1 l1| |e1]; cbn [rbind snd] in *; auto.
+  destruct (rbind (rbind (ref_sp Version o1 l1) _) _) as [c o2 l2| |e2]; cbn [rbind snd] in *; auto.
+  destruct (ref_after_code ms o2 l2) as [r o3 l3| |e3]; cbn [snd consumed] in *; auto.
+Qed.
+
+(* ---- whole messages ---- *)
+(* [framed hc buf n]: buf = start ++ LF :: body ++ eol ++ rest, n is the offset just after eol,
+   eol is an empty line, and there is no empty line in LF :: body *)
+Definition framed (spb : bool) (buf : list N) (n : nat) : Prop :=
+  exists start body eol rest,
+    buf = (start ++ [10%N]) ++ body ++ eol ++ rest /\
+    n = length (start ++ [10%N]) + length body + length eol /\
+    (eol = [10%N] \/ eol = [13%N; 10%N]) /\
+    blank_free (10%N :: body) = true /\
+    (spb = false -> body = [] \/ last body 0%N = 10%N).
+
+Theorem ref_request_framing cf cap buf n :
+  rq_status (ref_request cf cap buf) = Complete n ->
+  framed (allow_space_before_first_header_name (request_hcfg cf)) buf n.
+Proof.
+  unfold ref_request.
+  pose proof (ref_request_line_lf (allow_multiple_spaces_in_request_line_delimiters cf) buf) as Hc.
+  pose proof (ref_request_line_adv (allow_multiple_spaces_in_request_line_delimiters cf) buf) as Ha.
+  destruct (ref_request_line _ buf) as [st r]. cbn [snd] in *.
+  pose proof (consumed_len Pe 0 buf _ Hc Ha) as Hq.
+  destruct r as [u o l| |e]; try discriminate. destruct Hq as [q (Hl & [start ->] & ->)].
+  destruct (ref_headers (request_hcfg cf) cap _ l) as [s hs] eqn:Eh. cbn [rq_status]. intros ->.
+  apply ref_headers_framing in Eh as [body [eol [rest (-> & -> & He & Hb & Hlast)]]].
+  exists start, body, eol, rest. repeat split; auto; lia.
+Qed.
+
+Theorem ref_response_framing cf cap buf n :
+  rp_status (ref_response cf cap buf) = Complete n ->
+  framed (allow_space_before_first_header_name (response_hcfg cf)) buf n.
+Proof.
+  unfold ref_response.
+  pose proof (ref_status_line_lf (allow_multiple_spaces_in_response_status_delimiters cf) buf) as Hc.
+  pose proof (ref_status_line_adv (allow_multiple_spaces_in_response_status_delimiters cf) buf) as Ha.
+  destruct (ref_status_line _ buf) as [st r]. cbn [snd] in *.
+  pose proof (consumed_len Pe 0 buf _ Hc Ha) as Hq.
+  destruct r as [u o l| |e]; try discriminate. destruct Hq as [q (Hl & [start ->] & ->)].
+  destruct (ref_headers (response_hcfg cf) cap _ l) as [s hs] eqn:Eh. cbn [rp_status]. intros ->.
+  apply ref_headers_framing in Eh as [body [eol [rest (-> & -> & He & Hb & Hlast)]]].
+  exists start, body, eol, rest. repeat split; auto; lia.
+Qed.
+
+(* Partial: either the start line is not finished, or the bytes after it contain no empty line *)
+Definition unterminated {A} (buf : list N) (line : rres A) : Prop :=
+  match line with
+  | RPart => True
+  | ROk _ o rest => exists start, buf = (start ++ [10%N]) ++ rest /\ blank_free (10%N :: rest) = true
+  | RErr _ => False
+  end.
+
+Theorem ref_request_partial cf cap buf :
+  rq_status (ref_request cf cap buf) = Partial ->
+  unterminated buf (snd (ref_request_line (allow_multiple_spaces_in_request_line_delimiters cf) buf)).
+Proof.
+  unfold ref_request.
+  pose proof (ref_request_line_lf (allow_multiple_spaces_in_request_line_delimiters cf) buf) as Hc.
+  destruct (ref_request_line _ buf) as [st r]. cbn [snd] in *.
+  destruct r as [u o l| |e]; cbn [unterminated rq_status]; [|auto|discriminate].
+  destruct Hc as [q (Hl & [start ->])].
+  destruct (ref_headers (request_hcfg cf) cap _ l) as [s hs] eqn:Eh. cbn [rq_status]. intros ->.
+  exists start. split; [exact Hl|]. eapply ref_headers_partial; exact Eh.
+Qed.
+
+Theorem ref_response_partial cf cap buf :
+  rp_status (ref_response cf cap buf) = Partial ->
+  unterminated buf (snd (ref_status_line (allow_multiple_spaces_in_response_status_delimiters cf) buf)).
+Proof.
+  unfold ref_response.
+  pose proof (ref_status_line_lf (allow_multiple_spaces_in_response_status_delimiters cf) buf) as Hc.
+  destruct (ref_status_line _ buf) as [st r]. cbn [snd] in *.
+  destruct r as [u o l| |e]; cbn [unterminated rp_status]; [|auto|discriminate].
+  destruct Hc as [q (Hl & [start ->])].
+  destruct (ref_headers (response_hcfg cf) cap _ l) as [s hs] eqn:Eh. cbn [rp_status]. intros ->.
+  exists start. split; [exact Hl|]. eapply ref_headers_partial; exact Eh.
+Qed.
